@@ -1,6 +1,8 @@
 CONSTANTS
   MaxLen = 3
   MaxDim = 2
+  KindsB = {}
+  Rich = TRUE
 INIT Init
 NEXT Next
 INVARIANT LowerCorrect
